@@ -25,6 +25,9 @@ import (
 
 var byteAlphabet = []byte{0x00, 0x01, 0x2b, 0x2f, 0x3d, 0x7f, 0x80, 0xff}
 var boundaryLens = []int{4, 5, 6, 7, 63, 64, 65, 1023, 1024, 1025}
+
+// lengths around the copy buffer sizes of the conversion paths (32 KiB, 64 KiB); bit cuts 0 and 3 only
+var largeLens = []int{32769, 65537}
 var hashNames = []string{"md4", "md5", "sha1", "sha256", "sha512", "sha3_224", "sha3_256", "sha3_384", "sha3_512"}
 
 func refHash(name string, b []byte) []byte {
@@ -113,6 +116,15 @@ func enumBytes(e *env) {
 		pythonHashCrossCheck(e, short)
 	}
 	e.each(items, 48, func(items []any) { checkBytes(e, "bytes", items) })
+	var large []any
+	for _, n := range largeLens {
+		b := boundaryBytes(n)
+		for _, k := range []int{0, 3} {
+			large = append(large, map[string]any{"b": bytesToList(b), "n": len(b)*8 - k})
+		}
+	}
+	e.r.Extra("bytes_large_inputs", len(large))
+	e.each(large, 1, func(items []any) { checkBytes(e, "bytes", items) })
 }
 
 var bytesBodyText string
